@@ -11,7 +11,7 @@ from pbt.core import call
 
 PROP = "C07"
 TECHNIQUE = "Hypothesis-generated (forecast total, observed count, NBD variance, catalog-size multisets) vs. independent tail sums (scipy sf/cdf cross-checked by math.fsum of the pmf); identities delta1+delta2=1+pmf and monotonicity in the mean"
-RULE = ("one case = forecast whose total is 1e-6..1e5 (rates scaled to a drawn total, directly or through scale() histories) x observed count "
+RULE = ("(1 case in 3: forecast and catalog go through the M, S, CL, binary S tests before the number test, unjudged) one case = forecast whose total is 1e-6..1e5 (rates scaled to a drawn total, directly or through scale() histories) x observed count "
         "0..1e5 (around the mean +- a few sigma, 0, 1) for the Poisson N-test; the same with NBD variance mean*(1+10^u), u in [-3,4]; "
         "a multiset of synthetic-catalog sizes x observed count for the catalog N-test; plus an increasing sequence of means for monotonicity. "
         "Non-trivial = n_obs >= 1 with pmf(n_obs) > 1e-6 (the inclusive/exclusive choice is visible); distinct = canonical JSON.")
